@@ -220,7 +220,10 @@ class FamilyC17:
                ["time", ["cmp", "le", f"t:{T0}"]], ["time", ["cmp", "le", f"t:{T0}@-420"]],
                ["meas", ["cmp", "eq", "s:" + hx("m")]], ["noop", "tag"],
                ["tag", hx("a"), ["map", ["upper"], ["cmp", "eq", "s:" + hx("X")]]],
-               ["tag", hx("a"), ["test", "streq", "s:" + hx("x")]]]
+               ["tag", hx("a"), ["test", "streq", "s:" + hx("x")]],
+               # right-hand sides whose Python hashes collide: hash(-1) == hash(-2), hash(0) == hash(2**61 - 1)
+               ["field", hx("f"), ["cmp", "eq", "n:-1"]], ["field", hx("f"), ["cmp", "eq", "n:-2"]],
+               ["field", hx("f"), ["cmp", "lt", "n:0"]], ["field", hx("f"), ["cmp", "lt", "n:2305843009213693951"]]]
         xs = list(ls) + [["not", x] for x in ls]
         comp = []
         for a in sub:
@@ -301,6 +304,24 @@ class FamilyC17:
                     if not (a == b):
                         add("impl-vs-spec", f"a {op} b != b {op} a for a={V.sx(xs[i])[:120]} b={V.sx(xs[j])[:120]}",
                             dict(q1=[op, xs[i], xs[j]], q2=[op, xs[j], xs[i]], what="not-commutative"))
+        # shapes outside the Lean vocabulary, checked on the real objects only: a map function anywhere in the path
+        # (also followed by further keys) makes the query unhashable and unequal to everything, itself included
+        def rekey(d):
+            return {"z": "v"}
+
+        def ident(v):
+            return v
+
+        special = [tf.TagQuery().map(rekey).z == "v", tf.TagQuery().a.map(ident) == "x",
+                   tf.FieldQuery().map(rekey).z.exists(), tf.TimeQuery().map(ident) == V.dt_of(T0),
+                   tf.MeasurementQuery().map(ident) == "m"]
+        special += [special[0] & objs[0], ~special[0], special[1] | special[0], objs[0] & special[2]]
+        for q in special:
+            for r2 in special + objs[:40]:
+                comm += 1
+                if (q == r2) or (r2 == q) or q.is_hashable():
+                    add("impl-vs-spec", f"a query with a map function in its path compares equal / is hashable: {q!r} vs {r2!r}",
+                        dict(q1=["special"], q2=["special"], what="map-equal-special"))
         if model_ok:
             model = C.run_driver("modeldriver", lines)
             for k, (i, j) in enumerate(pairs):
@@ -326,6 +347,10 @@ class FamilyC17:
 
 def replay_c17(payload):
     tf = C.import_tinyflux()
+    if payload.get("what") == "map-equal-special":
+        q = tf.TagQuery().map(lambda d: {"z": "v"}).z == "v"
+        print("TagQuery().map(f).z == 'v': hashable", q.is_hashable(), "equal to itself", q == q)
+        return q.is_hashable() or (q == q)
     q1, q2 = V.build_query(payload["q1"], tf), V.build_query(payload["q2"], tf)
     print(f"q1 = {V.sx(payload['q1'])}\nq2 = {V.sx(payload['q2'])}\nq1 == q2: {q1 == q2}")
     w = payload.get("what")
